@@ -20,7 +20,7 @@ def env_for_worker(extra=None):
     env["PYTHONPATH"] = REPO + ":" + ROOT
     env["PYTHONDONTWRITEBYTECODE"] = "1"
     env["PYTHONHASHSEED"] = "0"
-    env.pop("NORMINETTE_VERIF", None)
+    env["NORMINETTE_VERIF"] = "1"        # in-tree hooks (lexer cursor, unsorted diagnostics) are guarded by it
     if extra:
         env.update(extra)
     return env
@@ -201,6 +201,11 @@ def run_check(pid, tier, seed, replay=None):
         if not w or ent["id"] not in wfuts:
             continue
         viols = wfuts[ent["id"]].result()
+        blind = [v for v in viols if v["kind"] == "replay_inconclusive"]
+        if blind:
+            merged["inconclusive"].append("witness of %s could not be replayed: %s" % (
+                ent["id"], str(blind[0]["detail"].get("inconclusive"))[:200]))
+            continue
         hit = [v for v in viols if findings.predicate_holds(ent, v)]
         if ent["status"] == "known":
             if hit:
@@ -307,5 +312,6 @@ def run_inline(pid, spec):
         except OSError:
             pass
     if res.get("inconclusive") and not res.get("violations"):
-        return [{"kind": "replay_failed", "sig": ["replay_failed"], "case": spec, "detail": res}]
+        return [{"kind": "replay_inconclusive", "sig": ["replay_inconclusive"], "case": spec,
+                 "detail": {"inconclusive": res.get("inconclusive"), "stderr": res.get("stderr", "")[-400:]}}]
     return res.get("violations", [])
